@@ -138,7 +138,8 @@ func (rb *Rebalancer) ServeHTTP(w http.ResponseWriter, req *http.Request) {
 		}
 
 		if present {
-			newReq.URL = cookieURL
+			// hand out a copy: cookieURL is the pool's own URL
+			newReq.URL = utils.CopyURL(cookieURL)
 			stuck = true
 		}
 	}
